@@ -20,6 +20,9 @@ class _Font(FakeFont):
     def getReverseGlyphMap(self, rebuild=False):
         return {g: i for i, g in enumerate(self.glyphOrder)}
 
+    def getGlyphNameMany(self, gids):
+        return [self.glyphOrder[g.__index__() if hasattr(g, "__index__") else g] for g in gids]
+
 
 @contract
 class Cmap12Compile(Contract):
@@ -176,3 +179,39 @@ class Cmap4Compile(Contract):
             And(*[Not(eq(a._probe, c)) for c in a._codes]), eq(spec_cmap4_lookup(list(SymBytes.of(r).items), a._probe)[0], 0))),
         prop("segments-well-formed", lambda a, old, r: Cmap4Compile._wellformed(a, r)),
     ]
+
+
+@contract
+class Cmap4RoundTrip(Contract):
+    """cmap_format_4.decompile(compile(map)) == map by code point and glyph (1..2 symbolic code
+    points, every run / gap / glyph-id pattern)."""
+    module = "fontTools.ttLib.tables._c_m_a_p"
+    qualname = "cmap_format_4.decompile"
+    props = ("C02", "C01")
+    rebind = REBIND4
+    variants = (1, 2)
+    level = "PF"
+    max_paths = 60000
+    args = Cmap4Compile.args
+    requires = Cmap4Compile.requires
+
+    def call(self, f, a):
+        cls = type(a.self)
+        data = cls.compile(a.self, a.ttFont)
+        back = cls(4)
+        f(back, data, a.ttFont)
+        return back
+
+    @staticmethod
+    def _same(a, r):
+        order = a.ttFont.glyphOrder
+        m = r.cmap
+        if len(m) != len(a._codes):
+            return False
+        cs = []
+        for c, g in zip(a._codes, a._gids):
+            hits = [And(eq(k, c), eq(g, order.index(v))) for k, v in m.items()]
+            cs.append(Or(*hits))
+        return And(*cs)
+
+    ensures = [prop("same-map-back", lambda a, old, r: Cmap4RoundTrip._same(a, r))]
